@@ -193,6 +193,15 @@ def mixes(draw):
             "fire": draw(st.integers(0, 2)) == 0, "skip": draw(st.integers(0, 3)) == 0, "resume": draw(st.integers(0, 2)) == 0}
 
 
+def long_legal_cases():
+    """Legal sequences that are merely long: thousands of control frames between and inside messages are accepted like ten."""
+    for n in (1200, 2600):
+        ctl = [{"fin": 1, "op": rm.PING if i % 2 else rm.PONG, "p": bytes([97 + i % 5]) * (i % 3)} for i in range(n)]
+        for driver, cf in (("recv", False), ("data", False), ("data_frame", False), ("next", False)):
+            yield {"frames": ctl + [{"fin": 1, "op": rm.TEXT, "p": b"after"}], "driver": driver, "cf": cf}
+            yield {"frames": [{"fin": 0, "op": rm.BINARY, "p": b"in"}] + ctl + [{"fin": 1, "op": rm.CONT, "p": b"side"}], "driver": driver, "cf": cf}
+
+
 def jobs(tier, seed):
     out = [{"name": "A", "kind": "A"}, {"name": "C", "kind": "C"}]
     for i in range(8):
@@ -221,6 +230,8 @@ def run_job(job, coll):
         coll.exhaustive["B: all 65536 close codes"] = True
     elif k == "C":
         for c in sub_c():
+            coll.check(c, run_case)
+        for c in long_legal_cases():
             coll.check(c, run_case)
         coll.exhaustive["C: close-reason UTF-8 classes x lengths x positions"] = True
     elif k == "D":
